@@ -10,9 +10,9 @@ use rspirv::dr;
 use serde_json::{json, Value};
 use std::io::BufRead;
 
-fn err_name(e: &dyn std::fmt::Debug) -> String {
-    let s = format!("{:?}", e);
-    s.split(|c| c == '(' || c == ' ' || c == '{').next().unwrap_or("").to_string()
+/// the variant of a consumer error raised by the Loader (by generated match; foreign error types: "Foreign")
+fn err_name(e: &Box<dyn std::error::Error + Send + Sync>) -> String {
+    match e.downcast_ref::<dr::Error>() { Some(le) => crate::gen::errors::loader_err_name(le).to_string(), None => "Foreign".to_string() }
 }
 
 /// Feed the instructions one by one to a fresh Loader.
